@@ -8,11 +8,13 @@ Local Open Scope N_scope.
 Fixpoint tag_from {A} (i : N) (l : list A) : list (N * A) :=
   match l with [] => [] | x :: r => (i, x) :: tag_from (N.succ i) r end.
 
-(* stored entries that survive the first loop of HttpHeader::update, then the added fresh entries *)
+(* stored entries that survive the first loop of HttpHeader::update, then the added fresh entries; a fresh entry
+   takes part in neither loop when update()'s skipEntry says so (CondModel.skip_entry, /repo 5d5369d: Vary,
+   hop-by-hop in the registered-header table, or nominated by the 304's own Connection field) *)
 Definition merged_tagged (old fresh : list hdr) : list (N * hdr) :=
-  let dead (h : hdr) := existsb (fun e => negb (skip_update_header (hdr_id e)) && deleted_by e h) fresh in
+  let dead (h : hdr) := existsb (fun e => negb (skip_entry fresh e) && deleted_by e h) fresh in
   filter (fun p => negb (dead (snd p))) (tag_from 0 old)
-  ++ filter (fun p => negb (skip_update_header (hdr_id (snd p)))) (tag_from (lenN old) fresh).
+  ++ filter (fun p => negb (skip_entry fresh (snd p))) (tag_from (lenN old) fresh).
 
 (* indices (into old ++ fresh) of the entries the client receives after the revalidation *)
 Definition reval_kept (old fresh : list hdr) : list N :=
